@@ -124,7 +124,7 @@ def c01(tier):
 
 def c05(tier):
     build("vh", "vh-debug", "cli", "shim")
-    r = Result("C05", "fault_enumeration", "one evaluation = one faulted (basis', delta') pair (1-3 faults from a 22-entry catalogue, or every single-field fault of a <= 6-op delta) through both patch engines with a recording reader under catch_unwind, or one `copia patch` run on the serialised pair; verdict: Ok => BLAKE3(output) == delta'.checksum and output == literals ++ basis' ranges; panic/signal => violation; distinct non-trivial = distinct (fault class, outcome) pairs")
+    r = Result("C05", "fault_enumeration", "one evaluation = one faulted (basis', delta') pair (1-3 faults from a 24-entry catalogue, or every single-field fault of a <= 6-op delta) through both patch engines with a recording reader under catch_unwind, or one `copia patch` run on the serialised pair (the output path with a past: stale longer file, earlier rejected / accepted / killed patch to the same -o), or one patch into a FIFO whose reader stalls; verdict: Ok => BLAKE3(output) == delta'.checksum and output == literals ++ basis' ranges; panic/signal => violation; distinct non-trivial = distinct (fault class, outcome) pairs")
     th = tier == "thorough"
     if not VARIANT:
         r.merge_vh(run_vh("c05", tier, stage="lib", cases=3000000 if th else 300000), "release-lib:")
@@ -278,7 +278,7 @@ def dev_profile_traced_stage(r, ncases):
 
 def c20(tier):
     build("vh", "vh-debug", "cli", "shim")
-    r = Result("C20", "exploration", "one evaluation = one value round trip (Message/Codec via 1-7 byte reads/FrameHeader/bincode files), one decode call on arbitrary or mutated bytes inside an allocation-counting scope + catch_unwind (verdict: no panic, no single request > 16 MiB + 4 KiB, header accepted <=> magic & version & type & length predicate), or one `copia delta|patch` run on a hostile file under RLIMIT_AS = 2 GiB and a 60 s watchdog; distinct non-trivial = distinct (decoder or message kind, mutation class or corrupted field, outcome)")
+    r = Result("C20", "exploration", "one evaluation = one value round trip (Message/Codec via 1-7 byte reads/FrameHeader/bincode files), one decode call on arbitrary or mutated bytes inside an allocation-counting scope + catch_unwind (verdict: no panic, no single request > 16 MiB + 4 KiB, header accepted <=> magic & version & type & length predicate), or one `copia delta|patch` run on a hostile file under RLIMIT_AS = 2 GiB and a 60 s watchdog (release CLI; dev-profile CLI with --trace-output on hostile header fields), CLI signature/delta files above 2 MiB compared with the library encoding; distinct non-trivial = distinct (decoder or message kind, mutation class or corrupted field, outcome)")
     th = tier == "thorough"
     if not VARIANT:
         r.merge_vh(run_vh("c20", tier, stage="lib", cases=60000 if th else 5000, alloc_abort="C20|decode|single-allocation-request-above-1GiB-aborted-the-process"), "release-lib:")
